@@ -65,6 +65,8 @@ class RefBleAccessory:
         self.pairings_reply = None              # override for the pairings characteristic: list of TLV items
         self.timed = {}
         self.decrypt_errors = []
+        self.empty_last_fragment = False        # all data travels in FragmentData items, the reply ends with a zero-length FragmentLast (0d 00)
+        self.envelope_fault = None              # callable(stage, pairing TLV bytes) -> bytes of the HAP-Param envelope (instead of 01 <len> <tlv>)
         self.endless_fragments = {}             # "verify" | "setup" -> True: the last fragment of a fragmented reply is withheld for ever
         self.endless_sent = 0
         self.abort_fragments = {}               # "verify" | "setup" -> (fragments delivered before the abort, error reply items)
@@ -250,9 +252,11 @@ class RefBleAccessory:
         raw = tlv_enc(reply)
         if self.verify_reply_pieces:
             n = self.verify_reply_pieces
-            self.frag_buffer["verify"] = [raw[i:i + n] for i in range(0, len(raw), n)]
+            self.frag_buffer["verify"] = [raw[i:i + n] for i in range(0, len(raw), n)] + ([b""] if self.empty_last_fragment else [])
             self.frag_sent["verify"] = 0
             return 0, self._next_piece("verify")
+        if self.envelope_fault is not None:
+            return 0, self.envelope_fault(self.cur_stage, raw)
         return 0, tlv_enc([(1, raw)])
 
     def _next_piece(self, key):
